@@ -173,6 +173,18 @@ def anisotropic(spec):
 
 
 # --------------------------------------------------------------------------------------------------------------- solving
+def _boundary(spec, q, ags, kw):
+    """Explicit boundary value: u_00(r_max) = boundary with V = u_00 Y_00 / r and Y_00 = 1/sqrt(4 pi).  A boundary value that is off by D adds the
+    homogeneous solution D r / r_max to u_00, i.e. the constant D Y_00 / r_max to the potential ("shifted": this constant is spec["shift"])."""
+    b = q * np.sqrt(4.0 * np.pi)
+    if spec["options"]["boundary"] == "shifted":
+        r = ags[0].rgrid.points
+        cut = kw.get("remove_large_pts", 1e6)
+        rmax = float(np.max(r if cut is None else r[r <= cut]))
+        b += spec["shift"] * rmax * np.sqrt(4.0 * np.pi)
+    return float(b)
+
+
 def solve(spec, terms=None, vals=None, grid_objs=None):
     """Call the real solver named in the spec; returns (callable, grid, values handed in)."""
     grid, ags, itf = grid_objs or build(spec["grid"])
@@ -188,15 +200,7 @@ def solve(spec, terms=None, vals=None, grid_objs=None):
         if "remove_large_pts" in opts:
             kw["remove_large_pts"] = opts["remove_large_pts"]
         if opts.get("boundary") in ("exact", "shifted"):
-            # u_00(r_max) = boundary with V = u_00 Y_00 / r and Y_00 = 1/sqrt(4 pi); a boundary value that is off by D adds the homogeneous
-            # solution D r / r_max to u_00, i.e. the constant D Y_00 / r_max to the potential ("shifted": chosen so that this constant is spec["shift"])
-            b = charge(spec["density"] if terms is None else terms) * np.sqrt(4.0 * np.pi)
-            if opts["boundary"] == "shifted":
-                r = ags[0].rgrid.points
-                cut = kw.get("remove_large_pts", 1e6)
-                rmax = float(np.max(r if cut is None else r[r <= cut]))
-                b += spec["shift"] * rmax * np.sqrt(4.0 * np.pi)
-            kw["boundary"] = float(b)
+            kw["boundary"] = _boundary(spec, charge(spec["density"] if terms is None else terms), ags, kw)
         if opts.get("zero_guess"):
             r = ags[0].rgrid.points
             n = r.size + (1 if kw.get("include_origin", True) and np.all(r > 0) else 0)
@@ -220,6 +224,9 @@ def solve(spec, terms=None, vals=None, grid_objs=None):
         if opts.get("alphas_basis") is not None:
             kw["alphas_basis"] = np.asarray(opts["alphas_basis"], dtype=float)
         cs = np.array(centres(spec["grid"]))
+        if opts.get("boundary") in ("exact", "shifted"):     # boundary value of the *residual* problem, forwarded through **bvp_kwargs
+            q = charge(spec["density"] if terms is None else terms) - sum(charge(core_terms(z, c)) for z, c in zip(spec["atnums"], cs))
+            kw["boundary"] = _boundary(spec, q, ags, kw)
         return solve_poisson_robust(grid, vals, itf, np.asarray(spec["atnums"]), cs, **kw), grid, vals
     raise ValueError(solver)
 
@@ -805,6 +812,12 @@ def fam_robust(col, g, tier):
             contract(col, "robust-vs-plain", f"solve_poisson_robust:smooth-density:Z{z}", dict(spec, tol=2e-3))
             # the greedy non-negative fit may move charge into very diffuse or very sharp functions: documented accuracy of the split solver is 1-5 %
             contract(col, "accuracy", f"solve_poisson_robust:smooth-density:Z{z}:split2-True", dict(spec, tol=3e-2, options={"split2": True}))
+        # keyword arguments reach the boundary-value solver: a shifted boundary value of the residual problem shifts the potential by a constant
+        gs = atom_grid("Becke", becke_args(g), {}, int(g.integers(58, 77)), 3)
+        spec = {"solver": "robust", "atnums": [1], "grid": gs, "density": core_terms(1, [0, 0, 0]) + s_terms(g, 1, amax=3.0),
+                "options": {"boundary": "shifted", "remove_large_pts": 40.0}, "shift": float(g.uniform(0.2, 0.5)),
+                "points": mkpts(g, [np.zeros(3)], 0.1, 5.0).tolist(), "tol": 2e-3, "np_seed": int(g.integers(1 << 30))}
+        contract(col, "accuracy", "solve_poisson_robust:bvp-kwargs-forwarded:boundary-shifted", spec)
         # split 2: members of the fit basis on top of the core model are removed analytically (single centre: exact)
         basis = sorted(float(x) for x in g.uniform(0.3, 5.0, 3))
         gs = atom_grid("Becke", becke_args(g), {}, int(g.integers(58, 77)), 5)
